@@ -75,19 +75,29 @@ Proof.
 Qed.
 
 (* ---- BE ---- *)
+Lemma beq_dv b z : beq b (48 + z) = true <-> dv b = z.
+Proof. unfold beq, dv. lia. Qed.
+
 Lemma be_check_spec v :
-  digits_n 10 v = true ->
-  (be_check v = true <-> dig v 1 <> 0 /\ number v 8 10 = 97 - (number v 0 8) mod 97).
+  be_check v = true <-> ~ (dig v 0 = 0 /\ dig v 1 = 0) /\ number v 8 10 = 97 - (number v 0 8) mod 97.
 Proof.
-  intro D. unfold be_check, dig, number. generalize (num_of (sub 8 10 v)) (num_of (sub 0 8 v)). intros a b.
-  destruct (dv (nthb 1 v) =? 0) eqn:E; split; intro H; try discriminate; try lia.
+  unfold be_check, dig, number. generalize (num_of (sub 8 10 v)) (num_of (sub 0 8 v)). intros a b.
+  pose proof (beq_dv (nthb 0 v) 0) as E0. pose proof (beq_dv (nthb 1 v) 0) as E1. change (48 + 0) with 48 in E0, E1.
+  destruct (beq (nthb 0 v) 48) eqn:A0; destruct (beq (nthb 1 v) 48) eqn:A1; cbn [andb]; split; intro H;
+    try discriminate; try lia.
 Qed.
+
+(* the first-digit clause of the rule, given what the format step established about the first byte *)
+Lemma be_first_clause v :
+  (dig v 0 = 0 \/ dig v 0 = 1) ->
+  (~ (dig v 0 = 0 /\ dig v 1 = 0) <-> (dig v 0 = 0 /\ dig v 1 <> 0) \/ dig v 0 = 1).
+Proof. intro H. lia. Qed.
 
 Lemma digits_n_cons0 c : digits_n 9 c = true -> digits_n 10 ("0"%byte :: c) = true.
 Proof. unfold digits_n. intro H. cbn [rep repeat match_classes]. change (is_digit "0") with true. exact H. Qed.
 
-Lemma digit_zero_byte b : is_digit b = true -> (beq b 48 = true <-> dv b = 0).
-Proof. unfold beq, dv. intro H. lia. Qed.
+Lemma be_first_byte b : beq b 48 || beq b 49 = true <-> dv b = 0 \/ dv b = 1.
+Proof. unfold beq, dv. lia. Qed.
 
 Theorem valid_BE_iff_spec c : valid_BE c = true <-> c = [] \/ Spec_BE c.
 Proof.
@@ -95,18 +105,54 @@ Proof.
   - intro V. right. split_andb V. apply orb_prop in V as [D|D].
     + (* 9 digits *)
       pose proof (digits_n_length _ _ D) as L. rewrite L in B. cbn [Nat.eqb] in B.
-      pose proof (digits_n_cons0 _ D) as D10. apply (be_check_spec _ D10) in B.
+      pose proof (digits_n_cons0 _ D) as D10. apply be_check_spec in B. destruct B as [B1 B2].
       right. split; [exact L|]. split; [change (S (List.length (x :: c)) = 10%nat); rewrite L; reflexivity|].
-      split; [apply digits_between_of_digits_n; exact D10|]. split; [reflexivity|]. exact B.
+      split; [apply digits_between_of_digits_n; exact D10|].
+      split; [apply be_first_clause; [left; reflexivity | exact B1] | exact B2].
     + split_andb D. pose proof (digits_n_length _ _ D) as L. rewrite L in B. cbn [Nat.eqb] in B.
-      apply (be_check_spec _ D) in B. left. split; [exact L|].
+      apply be_check_spec in B. destruct B as [B1 B2]. apply be_first_byte in B0. left. split; [exact L|].
       split; [apply digits_between_of_digits_n; exact D|].
-      split; [apply digit_zero_byte; [apply (digits_n_nth 10 _ 0%nat D); lia | exact B0]|]. exact B.
+      split; [apply be_first_clause; [exact B0 | exact B1] | exact B2].
   - intros [?|[(L & Dg & Z0 & A)|(L9 & L & Dg & Z0 & A)]]; [discriminate| |].
     + pose proof (digits_n_of_between _ _ L Dg) as D. rewrite D, L. cbn [Nat.eqb].
-      assert (B0 : beq (nthb 0 (x :: c)) 48 = true) by (apply digit_zero_byte; [apply (digits_n_nth 10 _ 0%nat D); lia | exact Z0]).
-      rewrite B0. rewrite orb_true_r. cbn [andb]. apply (be_check_spec _ D). exact A.
+      assert (F : dig (x :: c) 0 = 0 \/ dig (x :: c) 0 = 1) by (destruct Z0 as [[? _]|?]; auto).
+      assert (B0 : beq (nthb 0 (x :: c)) 48 || beq (nthb 0 (x :: c)) 49 = true) by (apply be_first_byte; exact F).
+      rewrite B0. rewrite orb_true_r. cbn [andb]. apply be_check_spec.
+      split; [apply (be_first_clause _ F); exact Z0 | exact A].
     + pose proof (digits_n_of_between _ _ L Dg) as D10.
       assert (D : digits_n 9 (x :: c) = true) by (unfold digits_n in *; cbn [rep repeat match_classes] in D10; apply andb_prop in D10 as [_ D10]; exact D10).
-      rewrite D, L9. cbn [orb andb Nat.eqb]. apply (be_check_spec _ D10). exact A.
+      rewrite D, L9. cbn [orb andb Nat.eqb]. apply be_check_spec.
+      split; [apply be_first_clause; [left; reflexivity | exact Z0] | exact A].
+Qed.
+
+(* the repaired direction on its own: every ten-digit number starting with 1 that carries the
+   right key is accepted (before the repair none was: the expression was ^0?\d{9}$) *)
+Theorem valid_BE_leading_1 c :
+  List.length c = 10%nat -> digits_between c 0 10 -> dig c 0 = 1 ->
+  number c 8 10 = 97 - (number c 0 8) mod 97 -> valid_BE c = true.
+Proof.
+  intros L Dg F A. apply valid_BE_iff_spec. right. left. split; [exact L|]. split; [exact Dg|].
+  split; [right; exact F | exact A].
+Qed.
+
+(* and a number starting with 2..9 is refused whatever its last digits *)
+Theorem valid_BE_leading_digit c :
+  valid_BE c = true -> List.length c = 10%nat -> dig c 0 = 0 \/ dig c 0 = 1.
+Proof.
+  intros V L. apply valid_BE_iff_spec in V. destruct V as [->|[(_ & _ & [[F _]|F] & _)|(L9 & _)]].
+  - discriminate.
+  - left; exact F.
+  - right; exact F.
+  - rewrite L in L9. discriminate.
+Qed.
+
+Lemma be_leading_1_witnesses :
+  (List.length (bs "1000000021") = 10%nat /\ digits_between (bs "1000000021") 0 10 /\ dig (bs "1000000021") 0 = 1 /\
+   number (bs "1000000021") 8 10 = 97 - (number (bs "1000000021") 0 8) mod 97) /\
+  valid_BE (bs "1000000021") = true /\ valid_BE (bs "1000123448") = true /\ valid_BE (bs "1012345646") = true /\
+  valid_BE (bs "1000123449") = false /\ valid_BE (bs "2000000042") = false /\ valid_BE (bs "0012345625") = false.
+Proof.
+  split; [|vm_compute; repeat split].
+  split; [reflexivity|]. split; [apply digits_between_of_digits_n; vm_compute; reflexivity|].
+  split; vm_compute; reflexivity.
 Qed.
